@@ -474,7 +474,8 @@ func isBlob(s string) bool {
 	return false
 }
 
-var reAutoinc = regexp.MustCompile("(?i)(?:[(,]\\s*)[\"`]?(\\w+)[\"`]?\\s+INTEGER\\s+[^,]*PRIMARY\\s+KEY\\s+[^,]*AUTOINCREMENT")
+// Between PRIMARY KEY and AUTOINCREMENT the grammar allows an order and a conflict clause only.
+var reAutoinc = regexp.MustCompile("(?i)(?:[(,]\\s*)[\"`]?(\\w+)[\"`]?\\s+INTEGER\\s+[^,]*PRIMARY\\s+KEY(?:\\s+(?:ASC|DESC))?(?:\\s+ON\\s+CONFLICT\\s+\\w+)?\\s+AUTOINCREMENT")
 
 // autoinc checks if the table contains a "PRIMARY KEY AUTOINCREMENT" on its
 // CREATE statement, according to https://www.sqlite.org/syntax/column-constraint.html.
